@@ -15,6 +15,8 @@ Spec == Init /\ [][Next]_vars
 Report ==
   IF l > Len(Tr) THEN PrintT("VERDICT " \o ToJson([done |-> Len(Tr)]))
   ELSE LET e == Tr[l] IN
+       IF "hi" \in DOMAIN e THEN (ShiftOk(e) \/ PrintT("VERDICT " \o ToJson([id |-> e.id, why |-> ShiftWhy(e), ref |-> [err |-> FALSE]])))
+       ELSE
        Conforms(e.prog, e.bpa, e.big, e.obs) \/
        PrintT("VERDICT " \o ToJson([id |-> e.id, why |-> Why(e.prog, e.bpa, e.big, e.obs),
                                      ref |-> [err |-> Denote(e.prog, e.bpa, e.big).err]]))
